@@ -147,6 +147,11 @@ WinnersK(kt, q, m) ==
 KOf(tbl, rq, glob) == KTable(NTable(tbl, rq.tls), NReq(rq).h, glob)
 Cand(tbl, rq, m, glob)    == {v.r : v \in CandK(KOf(tbl, rq, glob), NReq(rq), m)}
 Winners(tbl, rq, m, glob) == {v.r : v \in WinnersK(KOf(tbl, rq, glob), NReq(rq), m)}
+\* The choice is a FUNCTION of the table and the request: there is no state a lookup reads or
+\* leaves behind, so the route that serves a request is the same whatever other requests are
+\* in flight on the same table at the same time (the harness replays the requests of one table
+\* from several goroutines at once and expects exactly these answers).
+Answer(tbl, rq, m, glob, othersInFlight) == Winners(tbl, rq, m, glob)
 \* the route that must serve rq, or None
 None == [h |-> NoHost, p |-> <<>>]
 Best(tbl, rq, m, glob) ==
